@@ -174,7 +174,7 @@ func (c *CopyCommand) copyOneFile(srcRelPath, destRelPath string, tow io.Writer)
 		return nil
 	}
 
-	if err := updateFileDataWithPointsList(destDB, srcPlDif, now); err != nil {
+	if err := updateFileDataWithDiff(destDB, srcTsList, srcPlDif, c.CopyNaN, now); err != nil {
 		return err
 	}
 
@@ -184,6 +184,33 @@ func (c *CopyCommand) copyOneFile(srcRelPath, destRelPath string, tow io.Writer)
 
 	if err := destDB.Sync(); err != nil {
 		return err
+	}
+	return nil
+}
+
+// updateFileDataWithDiff writes the differing points archive by archive, finest first.
+// Writing an archive also propagates into the coarser ones and may change slots there
+// which were equal to the source beforehand, so once an archive has been written,
+// every coarser selected archive gets all the source points of the window.
+func updateFileDataWithDiff(db *whispertool.Whisper, srcTsList TimeSeriesList, srcPlDif PointsList, copyNaN bool, now whispertool.Timestamp) error {
+	written := false
+	for archiveID := range db.ArchiveInfoList() {
+		points := srcPlDif[archiveID]
+		if written && srcTsList[archiveID] != nil {
+			points = nil
+			for _, p := range srcTsList[archiveID].Points() {
+				if copyNaN || !p.Value.IsNaN() {
+					points = append(points, p)
+				}
+			}
+		}
+		if len(points) == 0 {
+			continue
+		}
+		if err := db.UpdatePointsForArchive(points, archiveID, now); err != nil {
+			return err
+		}
+		written = true
 	}
 	return nil
 }
